@@ -45,6 +45,7 @@ type Node struct {
 	Mgr            *Manager
 	RealMgr        *messages.Manager
 	UseRealManager bool
+	BtcNetwork     string // network name the bitcoin wallet reports ("" = regtest)
 	tickMgr        *tickManager
 	handler        func(peerId string, msgType string, payload []byte) error
 	payCb          func(swapId string, invoiceType swap.InvoiceType)
